@@ -37,6 +37,8 @@ pub static PROP: Prop = Prop {
     assumptions: &[
         "Rust's float formatting ({:?}, {:e}, {:.Ne}, {}) is correctly rounded / shortest round-trip, so every rendered decimal lies inside the rounding interval of the generated double and any correctly rounding reader returns it",
         "the spelling -9223372036854775808 may evaluate to i64::MIN or fail (left open by the statement)",
+        "a backslash followed by 8 or 9 is a malformed octal escape (the tokenizer routes every digit to the octal arm), hence rejected; \
+         only non-digit unknown escapes are left open",
         "unknown escapes ('\\q'), octal 400-777 in strings and a raw string ending in a backslash are unspecified: only 'no panic' is checked",
         "a raw (unescaped) newline or carriage return inside a quoted literal may be accepted (then with exactly that character) or rejected with a syntax error",
         "error messages are not compared, only the error variant and the stage (compile) at which it is raised",
@@ -978,6 +980,15 @@ fn reject_grid() -> Vec<Case> {
                 }
             }
         }
+        // an escape that starts like an octal one (a digit) but with 8 or 9: malformed, not "unknown"
+        for prefix in ["", "f", "b"] {
+            let kind = if prefix == "b" { "bytes" } else { "str" };
+            for digits in ["8", "9", "800", "912", "80", "99", "888", "8a", "9 "] {
+                for term in ["", "0", "a", " "] {
+                    v.push(reject(wrap(prefix, q, "a", &format!("\\{}", digits), term), &format!("{}-octal-first-digit-8-9", kind)));
+                }
+            }
+        }
         // bytes octal above 377
         for o in [0o400u32, 0o401, 0o477, 0o500, 0o677, 0o700, 0o777] {
             for post in ["", "0"] {
@@ -1020,7 +1031,7 @@ fn unspecified_grid() -> Vec<Case> {
     let mut v = Vec::new();
     for q in ['\'', '"'] {
         for prefix in ["", "f", "b"] {
-            for e in ["q", "?", "z", " ", "8", "9", "é", "`", "/", "%", "N", "c", "e"] {
+            for e in ["q", "?", "z", " ", "é", "`", "/", "%", "N", "c", "e"] {
                 v.push(unspecified(wrap(prefix, q, "a", &format!("\\{}", e), "b"), "unknown-escape"));
             }
         }
